@@ -677,3 +677,93 @@ def _(c):
         == [(ash.RstFrame(), {"prefix": (ash.Reserved.CANCEL,)})],
     )
     c.modifies()
+
+
+# ---------------------------------------------------------------------------
+# link lifecycle (C10: "the serial connection is lost or reaches end-of-file ... every command call that was in
+# progress returns or raises"; "a deliberate close produces no such request")
+# ---------------------------------------------------------------------------
+def gw_calls(fx, name):
+    return [r[2] for r in fx if r[0] == "gateway." + name]
+
+
+@contract("bellows.ash.AshProtocol.connection_lost", props=["C10"])
+def _(c):
+    c.self(ASH)
+    c.cases(("error", {"exc": T.record(OSError, frozen=False, args=T.const(("boom",)))}), ("deliberate_close", {"exc": T.none}))
+    # the loss is handed to the layer above exactly once, with the very reason the serial layer gave (None for a
+    # deliberate close: uart.Gateway.connection_lost tells the two apart by it)
+    c.ensures("post.reported_upward_once_with_the_reason", lambda exc, fx: gw_calls(fx, "connection_lost") == [(exc,)])
+    c.ensures("post.nothing_else_upward", lambda fx: upward(fx) == [] and gw_calls(fx, "eof_received") == [])
+    # "every command call that was in progress returns or raises": sends waiting for an acknowledgement are failed
+    # (before the layer above is told), so nothing waits for a frame that cannot arrive any more
+    # (through _cancel_pending_data_frames, whose own contract says: every pending future gets the exception)
+    c.ensures("post.waiting_sends_fail", lambda fx: len(set_exceptions(fx)) == 1)
+    c.ensures(
+        "post.sends_failed_before_reporting",
+        lambda fx: [r[0] for r in fx if r[0] in ("ash.cancel_pending", "gateway.connection_lost")]
+        == ["ash.cancel_pending", "gateway.connection_lost"],
+    )
+    # "write nothing to the port": the transport is forgotten, so _write_frame's gate refuses every later write
+    c.ensures("post.transport_forgotten", lambda self: self._transport is None)
+    c.ensures("post.no_write", lambda fx: frames_written(fx) == [] and transport_writes(fx) == [])
+    c.modifies("self._transport", "self._pending_data_frames.*")
+
+
+@contract("bellows.ash.AshProtocol.eof_received", props=["C10"])
+def _(c):
+    c.self(ASH)
+    c.ensures("post.reported_upward_once", lambda fx: gw_calls(fx, "eof_received") == [()] and len(fx) == 1)
+    c.modifies()
+
+
+@contract("bellows.ash.AshProtocol.close", props=["C10"])
+def _(c):
+    c.self(ASH)
+    # "A deliberate close produces no such request": closing the link tells the layer above nothing
+    c.ensures(
+        "post.nothing_reported_upward",
+        lambda fx: upward(fx) == [] and gw_calls(fx, "connection_lost") == [] and gw_calls(fx, "eof_received") == [],
+    )
+    c.ensures("post.waiting_sends_fail", lambda fx: len(set_exceptions(fx)) == 1)
+    # the port is closed (once) iff there was one, and forgotten: later writes are refused by _write_frame's gate
+    c.ensures(
+        "post.port_closed_and_forgotten",
+        lambda self, fx: self._transport is None
+        and len([r for r in fx if r[0] == "transport.close"]) == (1 if old(self._transport) is not None else 0),
+    )
+    c.ensures("post.no_write", lambda fx: frames_written(fx) == [] and transport_writes(fx) == [])
+    c.modifies("self._transport", "self._pending_data_frames.*")
+
+
+@contract("bellows.ash.AshProtocol.connection_made", props=["C10"])
+def _(c):
+    c.self(ASH)
+    c.arg("transport", T.ext(TRANSPORT))
+    c.ensures("post.transport_kept", lambda self, transport: self._transport is transport)
+    c.ensures("post.reported_upward_once", lambda self, fx: gw_calls(fx, "connection_made") == [(self,)] and len(fx) == 1)
+    c.modifies("self._transport")
+
+
+# the state a new link starts in: the class invariants hold, numbering starts at zero in both directions, the link is
+# CONNECTED with nothing pending, nothing buffered (C04 / C05: every history starts here)
+def new_link(upper):
+    return ash.AshProtocol(upper)
+
+
+@contract("contracts.ash.new_link", props=["C04", "C05", "C10"])
+def _(c):
+    c.arg("upper", T.ext(GATEWAY))
+    c.ensures(
+        "post.initial_state",
+        lambda result, upper: result._ezsp_protocol is upper
+        and result._transport is None
+        and result._tx_seq == 0
+        and result._rx_seq == 0
+        and ash.T_RX_ACK_MIN <= result._t_rx_ack <= ash.T_RX_ACK_MAX
+        and result._ncp_state == ash.NcpState.CONNECTED
+        and len(result._pending_data_frames) == 0
+        and len(result._buffer) == 0
+        and result._discarding_until_next_flag is False,
+    )
+    c.ensures("post.no_effect", lambda fx: upward(fx) == [] and transport_writes(fx) == [])
